@@ -228,6 +228,7 @@ def inline_call(ex, state, f, args, kwargs):
     # the closure env frame object may have been copied with the state: re-link by identity map
     if fr.closure is not None:
         fr.closure = _relink(state, fr.closure)
+    depth0 = len(state.frames)
     state.frames.append(fr)
     depth = len(state.frames)
     ex.call_depth += 1
@@ -240,6 +241,10 @@ def inline_call(ex, state, f, args, kwargs):
     state.pending = []
     try:
         outs = ex.exec_block(state, fi.node.body)
+    except BaseException:
+        del state.frames[depth0:]           # never leave the callee's frame behind when unwinding
+        state.pending = outer_pending
+        raise
     finally:
         ex.call_depth -= 1
         ex.loop_ordinal, ex.loop_specs = saved_loop
@@ -257,7 +262,7 @@ def inline_call(ex, state, f, args, kwargs):
             raise Unsupported("break/continue escaping function")
     m = merge_states(rets) if rets else None
     if m is None:
-        pend = state.pending
+        del state.frames[depth0:]
         state.pc.append(z3.BoolVal(False))
         raise _Abort()
     pend = state.pending
